@@ -125,7 +125,7 @@ theorem shape_armOut (bb benv1 enve : BEnv) (h : shape enve = shape (armEnv bb b
   rw [armOut, shape_drop, h, armEnv, shape_append, ← shape_length bb, List.drop_left]
 
 mutual
-theorem shapeE (call : CallFn) : (e : Expr) → ∀ (benv : BEnv) (t : VTy) (bs : List Bool) (p : P) (benv' : BEnv),
+theorem shapeE (call : Ctx) : (e : Expr) → ∀ (benv : BEnv) (t : VTy) (bs : List Bool) (p : P) (benv' : BEnv),
     bitExpr call benv e = some (t, bs, p, benv') → shape benv' = shape benv
   | .bool b, benv, t, bs, p, benv', h => by
     simp only [bitExpr, Option.some.injEq, Prod.mk.injEq] at h; obtain ⟨_, _, _, rfl⟩ := h; rfl
@@ -360,7 +360,19 @@ theorem shapeE (call : CallFn) : (e : Expr) → ∀ (benv : BEnv) (t : VTy) (bs 
         exact shapeE call a _ _ _ _ _ ha
       · simp at h
     · simp at h
-  | .enumLit _ _ _ _, _, _, _, _, _, h => by simp [bitExpr] at h
+  | .enumLit ename variant isUnit es, benv, t, bs, p, benv', h => by
+    simp only [bitExpr] at h
+    split at h
+    · split at h
+      · split at h
+        · rename_i vs p1 env1 hl
+          split at h
+          · simp only [Option.some.injEq, Prod.mk.injEq] at h; obtain ⟨_, _, _, rfl⟩ := h
+            exact shapeL call es _ _ _ _ hl
+          · simp at h
+        · simp at h
+      · simp at h
+    · simp at h
   | .match_ scrut arms, benv, t, bs, p, benv', h => by
     simp only [bitExpr] at h
     split at h
@@ -382,7 +394,7 @@ theorem shapeE (call : CallFn) : (e : Expr) → ∀ (benv : BEnv) (t : VTy) (bs 
         exact shapeL call args _ _ _ _ hl
       · simp at h
     · simp at h
-theorem shapeL (call : CallFn) : (es : ExprList) → ∀ (benv : BEnv) (vs : List (VTy × List Bool)) (p : P) (benv' : BEnv),
+theorem shapeL (call : Ctx) : (es : ExprList) → ∀ (benv : BEnv) (vs : List (VTy × List Bool)) (p : P) (benv' : BEnv),
     bitList call benv es = some (vs, p, benv') → shape benv' = shape benv
   | .nil, benv, vs, p, benv', h => by
     simp only [bitList, Option.some.injEq, Prod.mk.injEq] at h; obtain ⟨_, _, rfl⟩ := h; rfl
@@ -396,7 +408,7 @@ theorem shapeL (call : CallFn) : (es : ExprList) → ∀ (benv : BEnv) (vs : Lis
         rw [shapeL call rest _ _ _ _ hr, shapeE call e _ _ _ _ _ he]
       · simp at h
     · simp at h
-theorem shapeF (call : CallFn) : (fs : FieldExprs) → ∀ (benv : BEnv) (vs : List (String × VTy × List Bool)) (p : P) (benv' : BEnv),
+theorem shapeF (call : Ctx) : (fs : FieldExprs) → ∀ (benv : BEnv) (vs : List (String × VTy × List Bool)) (p : P) (benv' : BEnv),
     bitFields call benv fs = some (vs, p, benv') → shape benv' = shape benv
   | .nil, benv, vs, p, benv', h => by
     simp only [bitFields, Option.some.injEq, Prod.mk.injEq] at h; obtain ⟨_, _, rfl⟩ := h; rfl
@@ -410,7 +422,7 @@ theorem shapeF (call : CallFn) : (fs : FieldExprs) → ∀ (benv : BEnv) (vs : L
         rw [shapeF call rest _ _ _ _ hr, shapeE call e _ _ _ _ _ he]
       · simp at h
     · simp at h
-theorem shapeArms (call : CallFn) : (arms : Arms) → ∀ (benv1 : BEnv) (ts : Ty) (sb : List Bool) (st st' : ArmSt),
+theorem shapeArms (call : Ctx) : (arms : Arms) → ∀ (benv1 : BEnv) (ts : Ty) (sb : List Bool) (st st' : ArmSt),
     bitArms call benv1 ts sb arms st = some st' → shape st.2.2.2 = shape benv1 → shape st'.2.2.2 = shape benv1
   | .nil, benv1, ts, sb, st, st', h, hs => by
     simp only [bitArms, Option.some.injEq] at h; subst h; exact hs
@@ -431,7 +443,7 @@ theorem shapeArms (call : CallFn) : (arms : Arms) → ∀ (benv1 : BEnv) (ts : T
           · exact shapeArms call rest benv1 ts sb _ st' h hmux
           · simp at h
         · exact shapeArms call rest benv1 ts sb _ st' h hmux
-theorem shapeSS (call : CallFn) : (ss : StmtList) → ∀ (benv : BEnv) (t : VTy) (bs : List Bool) (p : P) (benv' : BEnv),
+theorem shapeSS (call : Ctx) : (ss : StmtList) → ∀ (benv : BEnv) (t : VTy) (bs : List Bool) (p : P) (benv' : BEnv),
     bitStmts call benv ss = some (t, bs, p, benv') → ∃ pre, shape benv' = pre ++ shape benv
   | .nil, benv, t, bs, p, benv', h => by
     simp only [bitStmts, Option.some.injEq, Prod.mk.injEq] at h; obtain ⟨_, _, _, rfl⟩ := h
@@ -451,7 +463,7 @@ theorem shapeSS (call : CallFn) : (ss : StmtList) → ∀ (benv : BEnv) (t : VTy
         exact ⟨pre2 ++ pre1, by rw [h2, h1, List.append_assoc]⟩
       · simp at h
     · simp at h
-theorem shapeS (call : CallFn) : (s : Stmt) → ∀ (benv : BEnv) (t : VTy) (bs : List Bool) (p : P) (benv' : BEnv),
+theorem shapeS (call : Ctx) : (s : Stmt) → ∀ (benv : BEnv) (t : VTy) (bs : List Bool) (p : P) (benv' : BEnv),
     bitStmt call benv s = some (t, bs, p, benv') → ∃ pre, shape benv' = pre ++ shape benv
   | .let_ pat e, benv, t, bs, p, benv', h => by
     cases pat <;> simp only [bitStmt] at h
@@ -473,6 +485,17 @@ theorem shapeS (call : CallFn) : (s : Stmt) → ∀ (benv : BEnv) (t : VTy) (bs 
         · simp at h
       · simp at h
     case struct sn fps =>
+      split at h
+      · rename_i t1 bs1 p1 env1 he
+        split at h
+        · split at h
+          · rename_i m bb hp
+            simp only [Option.some.injEq, Prod.mk.injEq] at h; obtain ⟨_, _, _, rfl⟩ := h
+            exact ⟨shape bb, by rw [← shapeE call e _ _ _ _ _ he]; simp [shape]⟩
+          · simp at h
+        · simp at h
+      · simp at h
+    case enumTuple en vn ps =>
       split at h
       · rename_i t1 bs1 p1 env1 he
         split at h
@@ -568,7 +591,7 @@ theorem shapeS (call : CallFn) : (s : Stmt) → ∀ (benv : BEnv) (t : VTy) (bs 
       · simp at h
     · simp at h
   | .forJoin _ _ _ _, _, _, _, _, _, h => by simp [bitStmt] at h
-theorem shapeU (call : CallFn) : (path : Path) → ∀ (benv : BEnv) (t : Ty) (cur : List Bool) (vt : VTy) (vb out : List Bool) (p : P)
+theorem shapeU (call : Ctx) : (path : Path) → ∀ (benv : BEnv) (t : Ty) (cur : List Bool) (vt : VTy) (vb out : List Bool) (p : P)
     (benv' : BEnv), bitUpd call benv t cur vt vb path = some (out, p, benv') → shape benv' = shape benv
   | .nil, benv, t, cur, vt, vb, out, p, benv', h => by
     simp only [bitUpd] at h
